@@ -366,6 +366,7 @@ func Last[T any](ctx context.Context, s Stream[T], n int) ([]T, error) {
 // One returns the only item that s yields. Returns an error if encountered, or if s yields zero or
 // more than one item.
 func One[T any](ctx context.Context, s Stream[T]) (T, error) {
+	defer s.Close()
 	var zero T
 	x, err := s.Next(ctx)
 	if err == End {
